@@ -1,8 +1,162 @@
-import GoZero.C01.Spec
+/-
+C01 — property theorems (statements, short proofs from the lemmas, non-vacuity examples).
+Helper lemmas: Proofs.lean (arithmetic, decision), Run.lean (histories + ghosts), Window.lean (rolling window).
+-/
+import GoZero.C01.Run
 namespace GoZero.C01
 
+/-! ## 1. admission law -/
+
+/-- **A call is rejected only when, among the calls in the window the breaker looks at, the non-accepted ones
+exceed 5 plus 10 % of the accepted ones** — for every breaker state whatsoever (hence every reachable one, after
+any history and any interleaving of atomic window operations), every time and every draw.
+`overThreshold h` is `10·(total − accepts) > 50 + accepts`. -/
+theorem reject_only_if_over_threshold (b : Breaker) (now : Nat) (u : Rat)
+    (h : (b.accept now u).1 = .reject) : overThreshold (b.history now) := by
+  rw [accept_fst] at h
+  unfold Breaker.pathOf at h
+  have := (acceptPath_reject _ _ _ _ h).1
+  simp only [decide_eq_true_eq] at this
+  exact dropNum_pos_over _ ((dropRatio0_pos_iff _).mp this)
+
+/-- the threshold is sharp at the protection margin: 5 failures are never enough, whatever the draw -/
+example (u : Rat) : ((((List.replicate 5 Mark.fail).foldl (fun b m => b.mark 7 m) (Breaker.init 7)).accept 7 u).1 = .pass) := by
+  have h : (((List.replicate 5 Mark.fail).foldl (fun b m => b.mark 7 m) (Breaker.init 7)).history 7) = ⟨0, 5, 1, 0⟩ := by decide
+  rw [accept_fst]; unfold Breaker.pathOf; rw [h]
+  have : ¬ (0 < dropRatio0 ⟨0, 5, 1, 0⟩) := by
+    rw [dropRatio0_pos_iff, dropNum_no_accepts _ rfl]; simp
+  simp [acceptPath, this, Path.verdict]
+
+/-- "non-accepted = failures plus rejections": in every bucket the breaker writes, `Sum = Success + Failure + Drop`,
+so `total − accepts` of the law above is the number of failed plus dropped calls. -/
+theorem bucket_add_balanced (b : Bucket) (m : Mark) (h : b.sum = b.succ + b.fail + b.drop) :
+    (b.add m).sum = (b.add m).succ + (b.add m).fail + (b.add m).drop := by
+  cases m <;> simp [Bucket.add, Bucket.addCode, Mark.code] <;> omega
+
+/-! ## 2. exact accounting (decision table over entry points × outcomes × verdicts) -/
+
+/-- rejected: the request does not run, the fallback (if any) runs exactly once and its result is returned,
+otherwise ErrServiceUnavailable is returned; exactly one drop is recorded. -/
 theorem accounting_rejected (e : Entry) (o : Outcome) :
     rejectedOk e (CallObs.ofEvents (doReqEvents .reject e o)) = true := by
   cases e with | mk f c => cases f <;> cases c <;> cases o <;> decide
+
+/-- admitted: the request runs exactly once, no fallback, its error is returned unchanged, exactly one mark:
+success iff the acceptability predicate holds; a panic is a failure and is re-raised. -/
+theorem accounting_admitted (e : Entry) (o : Outcome) :
+    admittedOk e o (CallObs.ofEvents (doReqEvents .pass e o)) = true := by
+  cases e with | mk f c => cases f <;> cases c <;> cases o <;> decide
+
+/-- program order of an admitted call: request, then the (deferred) mark, then the return / the re-raised panic. -/
+theorem accounting_order (e : Entry) (o : Outcome) :
+    doReqEvents .pass e o =
+      if o = .panic then [.ranReq, .mark .fail, .repanicked]
+      else [.ranReq, .mark (if acceptable e.custom o then .succ else .fail), .returned o.ret] := by
+  cases o <;> simp [doReqEvents]
+
+/-- `…Ctx` with a done context: context error, nothing runs, nothing is recorded. -/
+theorem accounting_ctx_done : ctxDoneOk (CallObs.ofEvents ctxDoneEvents) = true := by decide
+
+/-- `Allow`: a rejection records exactly one drop, an admission records nothing until the promise is resolved. -/
+theorem accounting_allow :
+    marksOf (allowEvents .reject) = [.drop] ∧ marksOf (allowEvents .pass) = [] := by decide
+
+/-- the window after a `Do*` call is the window before it plus exactly the marks of the event list, added at `now`;
+`lastPass` moves only on a throttled admission. -/
+theorem doReq_state (b : Breaker) (now : Nat) (u : Rat) (e : Entry) (o : Outcome) :
+    (b.doReq now u e o).2.rw = (marksOf (b.doReq now u e o).1).foldl (fun w m => w.add now m) b.rw
+    ∧ (b.doReq now u e o).2.lastPass = if (b.pathOf now u).setsLastPass then now else b.lastPass := by
+  refine ⟨?_, doReq_lastPass b now u e o⟩
+  unfold Breaker.doReq
+  simp only []
+  have key : ∀ (ms : List Mark) (b1 : Breaker), (b1.applyMarks now ms).rw = ms.foldl (fun w m => w.add now m) b1.rw := by
+    intro ms
+    induction ms with
+    | nil => intro b1; rfl
+    | cons m ms ih => intro b1; simp only [Breaker.applyMarks, List.foldl_cons] at ih ⊢; rw [ih]; rfl
+  rw [key]
+  have hrw : (b.accept now u).2.rw = b.rw := by
+    unfold Breaker.accept Breaker.applyPath
+    simp only []
+    split <;> rfl
+  rw [hrw]
+
+/-! ## 3. guaranteed probing -/
+
+/-- state form: whatever the window and the draw, a call arriving more than 1 s after `lastPass` is admitted. -/
+theorem probe_after_one_second_state (b : Breaker) (now : Nat) (u : Rat)
+    (hp : 0 < b.lastPass) (hgap : b.lastPass + 1000000000 < now) : (b.accept now u).1 = .pass := by
+  rw [accept_fst]
+  exact acceptPath_forced _ _ _ _ hp (by unfold forcePassNs; omega)
+
+/-- **history form.** After any finite history of calls and time gaps on a breaker created at `t0 > 0`
+(`timex.Now()` is positive), if the last admission made while throttling happened at `t` and the next call
+arrives more than 1 s later, it is admitted, whatever the draw and the window. -/
+theorem probe_after_one_second (t0 : Nat) (ht0 : 0 < t0) (ops : List Op) (t dt : Nat) (u : Rat)
+    (hlast : ((Sys.init t0).run ops).lastThrottled = some t)
+    (hgap : t + 1000000000 < ((Sys.init t0).run ops).now + dt) :
+    ((((Sys.init t0).run ops).b).accept (((Sys.init t0).run ops).now + dt) u).1 = .pass := by
+  obtain ⟨_, h2, h3, _⟩ := Sys.good_run t0 ops
+  have := h3 t hlast
+  apply probe_after_one_second_state
+  · rw [h2, hlast]; simp; omega
+  · rw [h2, hlast]; simpa using hgap
+
+/-- `lastPass` is exactly the time of the last throttled admission (0 = none yet), in every reachable state. -/
+theorem lastPass_is_last_throttled_admission (t0 : Nat) (ops : List Op) :
+    ((Sys.init t0).run ops).b.lastPass = (((Sys.init t0).run ops).lastThrottled).getD 0 :=
+  (Sys.good_run t0 ops).2.1
+
+/-- non-vacuity: six failures recorded at t0 = 5, then a failing call with draw 1/2 ≥ 1/7: it is admitted on the
+throttled path, so the ghost (and `lastPass`) become 5, and the hypothesis of `probe_after_one_second` is met. -/
+example : ((Sys.init 5).run (List.replicate 6 (Op.resolve .fail) ++ [Op.call (1/2) ⟨false, false⟩ .errU])).lastThrottled = some 5 := by
+  have hh : ((Sys.init 5).run (List.replicate 6 (Op.resolve .fail))).b.history
+      ((Sys.init 5).run (List.replicate 6 (Op.resolve .fail))).now = ⟨0, 6, 1, 0⟩ := by decide
+  have hn : ((Sys.init 5).run (List.replicate 6 (Op.resolve .fail))).now = 5 := by decide
+  have h0 : 0 < dropRatio0 ⟨0, 6, 1, 0⟩ := by
+    rw [dropRatio0_pos_iff, dropNum_no_accepts _ rfl]; simp; grind
+  have h1 : ¬ ((1 : Rat) / 2 < dropRatio1 ⟨0, 6, 1, 0⟩) := by
+    rw [dropRatio1_total_failure _ rfl rfl, totalFailureRatio_eq]
+    have : ((6 + 1 : Nat) : Rat) = 7 := by simp
+    simp only [this]; grind
+  rw [Sys.run_append]
+  have := Sys.step_call_throttled ((Sys.init 5).run (List.replicate 6 (Op.resolve .fail))) (1/2) ⟨false, false⟩ .errU
+    (by rw [hh]; exact h0) (by rw [hh]; exact h1)
+  rw [hn] at this
+  exact this
+
+/-! ## 4. sustained total failure -/
+
+/-- If the window shows total failure (nothing accepted, more than 5 calls) then every call that is not the
+forced probe and whose draw is below `(n-5)/(n+1) = 1 − 6/(n+1)` is rejected. -/
+theorem total_failure_rejects (b : Breaker) (now : Nat) (u : Rat)
+    (ha : (b.history now).accepts = 0) (hn : 5 < (b.history now).total)
+    (hprobe : ¬ (b.lastPass > 0 ∧ now - b.lastPass > forcePassNs))
+    (hu : u < totalFailureRatio (b.history now).total) :
+    (b.accept now u).1 = .reject := by
+  have hwb : (b.history now).workingBuckets = 0 := summarize_wb _ ha
+  have hpos : 0 < dropRatio0 (b.history now) := by
+    rw [dropRatio0_pos_iff, dropNum_no_accepts _ ha]
+    have : (0 : Int) < (((b.history now).total : Nat) : Int) - 5 := by omega
+    exact_mod_cast this
+  have hless : u < dropRatio1 (b.history now) := by rw [dropRatio1_total_failure _ ha hwb]; exact hu
+  rw [accept_fst]
+  unfold Breaker.pathOf acceptPath
+  simp [hpos, hless, hprobe, Path.verdict]
+
+theorem total_failure_ratio (n : Nat) : totalFailureRatio n = 1 - 6 / ((n + 1 : Nat) : Rat) := totalFailureRatio_eq n
+
+/-- non-vacuity: after 12 failing calls recorded within one instant the window shows accepts = 0, total = 12,
+and a call with draw 1/2 < 7/13 is rejected -/
+example : (((List.replicate 12 Mark.fail).foldl (fun b m => b.mark 9 m) (Breaker.init 9)).accept 9 (1/2)).1 = .reject := by
+  have hh : (((List.replicate 12 Mark.fail).foldl (fun b m => b.mark 9 m) (Breaker.init 9)).history 9) = ⟨0, 12, 1, 0⟩ := by decide
+  have hl : ((List.replicate 12 Mark.fail).foldl (fun b m => b.mark 9 m) (Breaker.init 9)).lastPass = 0 := by decide
+  apply total_failure_rejects
+  · rw [hh]
+  · rw [hh]; decide
+  · rw [hl]; simp
+  · rw [hh, totalFailureRatio_eq]
+    have : ((12 + 1 : Nat) : Rat) = 13 := by simp
+    simp only [this]; grind
 
 end GoZero.C01
